@@ -162,7 +162,7 @@ func startEnv() (*scriptedTransport, *dnsScript, func()) {
 // ---- resolution workload ----
 
 var wkOutcomes = []string{"absent", "404", "500", "oversized-with-length", "oversized-no-length", "malformed", "no-m.server", "empty-m.server", "to-name", "to-name-port", "to-ipv4", "to-ipv4-port", "to-ipv6", "to-ipv6-port", "to-invalid", "wrong-type"}
-var srvOutcomes = []string{"none", "fed", "legacy", "both", "three", "trailing-dot", "fed-servfail", "legacy-servfail"}
+var srvOutcomes = []string{"none", "fed", "legacy", "both", "three", "same-target-two-ports", "same-record-twice", "trailing-dot", "fed-servfail", "legacy-servfail"}
 
 func mkSRV(target string, port uint16) dns.SRV {
 	return dns.SRV{Target: dns.Fqdn(target), Port: port, Priority: 10, Weight: 5}
@@ -185,6 +185,17 @@ func srvFor(outcome, name string) (srvScript, ref.SRVAnswer) {
 			t := fmt.Sprintf("s%d.%s", i, name)
 			sc.fed = append(sc.fed, mkSRV(t, uint16(9000+i)))
 			ans.Fed = append(ans.Fed, ref.SRVRecord{Target: t, Port: 9000 + i})
+		}
+	case "same-target-two-ports":
+		for _, p := range []int{8001, 8002} {
+			sc.legacy = append(sc.legacy, mkSRV("multi."+name, uint16(p)))
+			ans.Legacy = append(ans.Legacy, ref.SRVRecord{Target: "multi." + name, Port: p})
+		}
+	case "same-record-twice":
+		// answers may repeat a record; every record is a target
+		for i := 0; i < 2; i++ {
+			sc.fed = append(sc.fed, mkSRV("dup."+name, 8005))
+			ans.Fed = append(ans.Fed, ref.SRVRecord{Target: "dup." + name, Port: 8005})
 		}
 	case "trailing-dot":
 		sc.fed, ans.Fed = fed, []ref.SRVRecord{{Target: "fed." + name, Port: 8443}}
@@ -305,7 +316,7 @@ func c16Resolutions(c *mon.Ctx, st *scriptedTransport, ds *dnsScript) {
 					for _, r := range want {
 						ws = append(ws, fmt.Sprintf("%s host=%s sni=%s", r.Destination, r.Host, r.TLSName))
 					}
-					if so == "three" {
+					if so == "three" || so == "same-target-two-ports" {
 						sort.Strings(gs)
 						sort.Strings(ws)
 					}
@@ -363,6 +374,10 @@ func c16WellKnown(c *mon.Ctx, st *scriptedTransport) {
 		"both-reordered":  {"Expires": exp.Format("Mon, 02 Jan 2006 15:04:05 MST"), "Cache-Control": "max-age=7200, must-revalidate"},
 		"malformed":       {"Cache-Control": "max-age=soon", "Expires": "tomorrow"},
 		"max-age-uppercase": {"Cache-Control": "MAX-AGE=60"},
+		"both-max-age-zero": {"Cache-Control": "max-age=0", "Expires": exp.Format("Mon, 02 Jan 2006 15:04:05 MST")},
+		"both-max-age-one":  {"Cache-Control": "no-transform, max-age=1", "Expires": exp.Format("Mon, 02 Jan 2006 15:04:05 MST")},
+		"max-age-zero":      {"Cache-Control": "max-age=0"},
+		"both-expires-past": {"Cache-Control": "max-age=600", "Expires": "Mon, 02 Jan 2006 15:04:05 GMT"},
 	}
 	for name, hdrs := range cases {
 		c.Case("well-known-cache:"+name, map[string]any{"headers": hdrs}, func() {
@@ -394,6 +409,12 @@ func c16WellKnown(c *mon.Ctx, st *scriptedTransport) {
 				ok = in(before+7200, after+7200)
 			case "max-age-uppercase":
 				ok = in(before+60, after+60)
+			case "both-max-age-zero", "max-age-zero":
+				ok = in(before, after)
+			case "both-max-age-one":
+				ok = in(before+1, after+1)
+			case "both-expires-past":
+				ok = in(before+600, after+600)
 			}
 			if !ok {
 				c.Failf("wellknown:cache-lifetime:"+name, "CacheExpiresAt = %d (now %d) for headers %v", res.CacheExpiresAt, after, hdrs)
@@ -575,7 +596,7 @@ func c16Policy(c *mon.Ctx, ds *dnsScript) {
 			ip := net.ParseIP(host)
 			want := ref.NetAllowed(ip, allow, deny)
 			name := fmt.Sprintf("dial%d.example", ci)
-			for _, via := range []string{"client-by-literal", "dnscache-by-name"} {
+			for _, via := range []string{"client-by-literal", "dnscache-by-name", "dnscache-by-literal"} {
 				c.Case("policy:dial:"+via, map[string]any{"allow": allow, "deny": deny, "listener": addr, "via": via}, func() {
 					c.Nontrivial(fmt.Sprintf("dial|%v|%v|%s|%s", allow, deny, addr, via))
 					lg.mu.Lock()
@@ -587,6 +608,11 @@ func c16Policy(c *mon.Ctx, ds *dnsScript) {
 					case "client-by-literal":
 						cl := fclient.NewClient(fclient.WithAllowDenyNetworks(allow, deny), fclient.WithSkipVerify(true), fclient.WithWellKnownSRVLookups(false), fclient.WithTimeout(3*time.Second))
 						_, _ = cl.GetServerKeys(ctx, spec.ServerName(addr))
+					case "dnscache-by-literal":
+						cache := fclient.NewDNSCache(8, time.Minute, allow, deny)
+						if conn, err := cache.DialContext(ctx, "tcp", addr); err == nil {
+							_ = conn.Close()
+						}
 					default:
 						ds.mu.Lock()
 						ds.a = map[string][]string{name: {host}}
